@@ -117,6 +117,27 @@ func ruleRREQ(c *Ctx, rule string) {
 						okAll, why = false, "map produced by "+x.String()
 					}
 				case *ssa.MakeMap:
+					// a copy filled, pair by pair, from a range over a parsed map (directives are only left out)
+					if src := c.filteredCopySource(x); src != nil {
+						parsed := true
+						c.P.TraceBack(src, TraceOpts{}, func(w ssa.Value, _ []int) bool {
+							switch cc := w.(type) {
+							case *ssa.Call:
+								if cc.Call.StaticCallee() == c.A.F("parseReq") {
+									return false
+								}
+								if len(c.P.RepoCallees(cc)) == 0 {
+									parsed = false
+								}
+							case *ssa.MakeMap:
+								parsed = false
+							}
+							return true
+						})
+						if parsed {
+							return false
+						}
+					}
 					okAll, why = false, "map built locally at "+c.P.Pos(x.Pos())
 				case *ssa.Parameter:
 					if len(c.P.Callers(x.Parent())) == 0 && c.A.Reach[x.Parent()] {
@@ -266,4 +287,57 @@ func (c *Ctx) mapUpdated(m ssa.Value) bool {
 		}
 	}
 	return upd
+}
+
+// filteredCopySource: mk is a map that is only ever updated with the key and the value of one and the same step of a
+// range over another map (a copy that leaves pairs out, never adds or changes one); returns that other map, else nil.
+func (c *Ctx) filteredCopySource(mk *ssa.MakeMap) ssa.Value {
+	var src ssa.Value
+	n := 0
+	ok := true
+	var visit func(v ssa.Value, seen map[ssa.Value]bool)
+	visit = func(v ssa.Value, seen map[ssa.Value]bool) {
+		if seen[v] || v.Referrers() == nil {
+			return
+		}
+		seen[v] = true
+		for _, r := range *v.Referrers() {
+			switch x := r.(type) {
+			case *ssa.MapUpdate:
+				if x.Map != v {
+					continue
+				}
+				n++
+				k, isK := x.Key.(*ssa.Extract)
+				val, isV := x.Value.(*ssa.Extract)
+				if !isK || !isV || k.Tuple != val.Tuple || k.Index != 1 || val.Index != 2 {
+					ok = false
+					continue
+				}
+				nx, isN := k.Tuple.(*ssa.Next)
+				if !isN {
+					ok = false
+					continue
+				}
+				rg, isR := nx.Iter.(*ssa.Range)
+				if !isR {
+					ok = false
+					continue
+				}
+				if src != nil && src != rg.X {
+					ok = false
+				}
+				src = rg.X
+			case *ssa.Phi:
+				visit(x, seen)
+			case *ssa.ChangeType:
+				visit(x, seen)
+			}
+		}
+	}
+	visit(mk, map[ssa.Value]bool{})
+	if !ok || n == 0 {
+		return nil
+	}
+	return src
 }
